@@ -129,6 +129,10 @@ def tick (cfg : Cfg) (h : Helper) (T : Int) (est : Int) : Helper × TickOut :=
 /-- The emitted value for a resampling function `f` that returns a number: `None` without relevant samples. -/
 def emitted (f : List Sample → Rat) (o : TickOut) : Option Rat := if o.rel.isEmpty then none else some (f o.rel)
 
+/-- The same for a resampling function with ANY kind of result (`α` may contain NaN, ±inf, "none-like" values …): the
+emitted value is that result, whatever it is — "no value" (`none`) only arises from an empty relevant set. -/
+def emittedAs {α : Type} (f : List Sample → α) (o : TickOut) : Option α := if o.rel.isEmpty then none else some (f o.rel)
+
 inductive Ev where
   | recv (x : Sample)
   | tick (T : Int) (est : Int)
